@@ -24,6 +24,11 @@ Theorem C03_refuted_comment_in_expression_position :
 +b") = false.
 Proof. vm_compute. reflexivity. Qed.
 
+Theorem C03_refuted_bare_return_followed_by_statement :
+  idempotent_on no_numbers true (src "func f(){return // c
+return a}") = false.
+Proof. vm_compute. reflexivity. Qed.
+
 Theorem C03_refuted : ~ C03_idempotent.
 Proof. intros H. specialize (H no_numbers false (src "a;-b")). vm_compute in H. discriminate. Qed.
 
@@ -44,7 +49,11 @@ b}"; "// only
 // c
 }"; "a // t1
 // t2
-b"; "f = (a,b) => a+b; f(c)"; "for i=a:b {x++} // t"]%string = true.
+b"; "f = (a,b) => a+b; f(c)"; "for i=a:b {x++} // t";
+     (* repaired by fix: 781f1b2 and 4239cee *)
+     "if a { b /* yes */ } else { c /* no */ }"; "if x {a} else { // c
+ if y {b} }"; "func f() { x /* why */ }
+b = c"; "/* c */ if a {b}"; "if a {b} else { /* c */ if b {c} else {a} }"]%string = true.
 Proof. vm_compute. reflexivity. Qed.
 
 (* POSITIVE part, proved without bound for the expression fragment of coq/model/TokPrint.v (see C02):
